@@ -10,10 +10,14 @@ EXTENDS Integers, Sequences, FiniteSets, TLC, Json
 CONSTANTS Peers,               \* stalling peers
           Probe,               \* a well-behaved client connecting while they stall
           LogInAcceptLoop,     \* Serve evaluates conn.RemoteAddr() before the hand-off (blocks on a PROXY header)
-          HeadFromWaitStart    \* mutant: the read-header deadline is computed from the start of the idle wait,
+          HeadFromWaitStart,   \* mutant: the read-header deadline is computed from the start of the idle wait,
                                \* not from the first byte of the request head
+          NoMitmWaitLimit      \* mutant (as found): after the 200 to a CONNECT that is to be intercepted the proxy waits
+                               \* for the client's first byte without any deadline
 
-Limit == [pp |-> 2, tls |-> 5, idle |-> 7, head |-> 4, mitm |-> 5]   \* distinct so a mixed-up limit shows
+\* mwait: the wait for the first byte after the 200 to an intercepted CONNECT - a wait for the client's next move like
+\* the one between requests, bounded by the idle limit; the handshake limit runs from the first byte of the hello
+Limit == [pp |-> 2, tls |-> 5, idle |-> 7, head |-> 4, mitm |-> 5, mwait |-> 7]   \* distinct so a mixed-up limit shows
 Horizon == 12
 Stackings == {"plain", "tls", "pp", "pptls", "mitm"}
 \* the phases a connection of a stacking goes through, in order; "rt" = waiting for the origin (no client limit)
@@ -21,8 +25,10 @@ Phases(st) == CASE st = "plain" -> <<"idle", "head", "rt", "idle">>
                 [] st = "tls"   -> <<"tls", "idle", "head", "rt", "idle">>
                 [] st = "pp"    -> <<"pp", "idle", "head", "rt", "idle">>
                 [] st = "pptls" -> <<"pp", "tls", "idle", "head", "rt", "idle">>
-                [] st = "mitm"  -> <<"idle", "head", "mitm", "idle", "head", "rt", "idle">>
-Limited(ph) == ph # "rt"
+                [] st = "mitm"  -> <<"idle", "head", "mwait", "mitm", "idle", "head", "rt", "idle">>
+\* the phases in which the implementation arms a deadline / in which the statement demands one
+Limited(ph) == ph # "rt" /\ ~(NoMitmWaitLimit /\ ph = "mwait")
+MustBeLimited(ph) == ph # "rt"
 Conns == Peers \cup {Probe}
 
 VARIABLES stacking, clock, pos, since, entered, stallAt, closedAt, served,
@@ -90,7 +96,7 @@ NotClosedBefore == \A c \in Conns : closedAt[c] >= 0 => closedAt[c] >= entered[c
 \* never closed while waiting for the origin
 SlowOriginNeverCloses == \A c \in Conns : closedAt[c] >= 0 => PhaseOf(c) # "rt"
 \* a stalled peer is closed at its limit (timers fire on time: the clock cannot pass a due deadline)
-ClosedAtLimit == \A c \in Conns : (pos[c] >= 1 /\ closedAt[c] = -1 /\ Limited(PhaseOf(c))) => clock <= entered[c] + Limit[PhaseOf(c)]
+ClosedAtLimit == \A c \in Conns : (pos[c] >= 1 /\ closedAt[c] = -1 /\ MustBeLimited(PhaseOf(c))) => clock <= entered[c] + Limit[PhaseOf(c)]
 \* the accept loop never executes a per-connection blocking step
 LoopNeverBlocks == loop = "accept"
 \* a well-behaved client is never closed
@@ -98,8 +104,8 @@ ProbeNotClosed == closedAt[Probe] >= 0 => served[Probe]
 
 (* case export: stacking x stall phase with the limit that must apply *)
 Cases == { [stacking |-> st, at |-> i, phase |-> Phases(st)[i], limit |-> Limit[Phases(st)[i]]] :
-             st \in Stackings, i \in 1..7 } 
-CaseSet == { c \in [stacking : Stackings, at : 1..7] : c.at <= Len(Phases(c.stacking)) /\ Limited(Phases(c.stacking)[c.at]) }
+             st \in Stackings, i \in 1..8 } 
+CaseSet == { c \in [stacking : Stackings, at : 1..8] : c.at <= Len(Phases(c.stacking)) /\ MustBeLimited(Phases(c.stacking)[c.at]) }
 \* dwell: the peer first sits out every idle wait it passes for longer than the read-header limit (but less than
 \* the idle limit) and sends its heads in two pieces - legal, and no limit has elapsed
 HasIdleBefore(c) == \E i \in 1..(c.at - 1) : Phases(c.stacking)[i] = "idle"
